@@ -820,6 +820,9 @@ func (s *Server) doModify(cid string, ops []*spb.AFTOperation, resCh chan *spb.M
 					},
 				}},
 			}
+			// The operation has been answered, do not fall through to the
+			// unknown network instance check which would answer it again.
+			continue
 		}
 		if _, ok := s.masterRIB.NetworkInstanceRIB(ni); !ok {
 			// this is an unknown network instance, we should not return
